@@ -4,3 +4,7 @@ import XPathV.Theorems.C02
 #print axioms XPathV.Theorems.C02.verdict_is_local
 #print axioms XPathV.Theorems.C02.smartdesc_stops_at_filters
 #print axioms XPathV.Theorems.C02.evaluate_restarts_from_any_state
+#print axioms XPathV.Theorems.C02.C02_main
+#print axioms XPathV.Theorems.C02.C02_keeps_exactly_the_true_ones
+#print axioms XPathV.Theorems.C02.C02_at_source_config
+#print axioms XPathV.Theorems.C02.C02_filter_is_list_filter
